@@ -11,10 +11,10 @@ CONSTANTS
   AadSet <- AadSetDef
   Passwords = {pw1, pw2}
   Vers = {2, 4}
-  MaxTokens = 1
-  MaxBlobs = 1
-  MaxDraws = 1
-  MaxGen = 0
+  MaxTokens = 0
+  MaxBlobs = 0
+  MaxDraws = 2
+  MaxGen = 2
 INIT MCInit
 NEXT MCNext
 VIEW MCView
